@@ -5,7 +5,7 @@ SPEC = {
     "translators": ["gen_prec"],
     "bins": ["c02"],
     "model_targets": ["Cond/Check.vo"],
-    "proof_targets": ["Cond/SemProofs.vo", "Cond/RuleSetProofs.vo", "Cond/PrecProofs.vo"],
+    "proof_targets": ["Cond/SemProofs.vo", "Cond/RuleSetProofs.vo", "Cond/PrecProofs.vo", "Cond/QuirksProofs.vo"],
     "assumptions": [
         "the meaning of conditions is the evaluator coq/Cond/Sem.v, hand-written from conditions.md / undefined_values.md / global_and_private.md; where these are silent it follows the implementation and says [undocumented] (64-bit wrap-around, truncated division, shift counts >= 64 / negative, P% = ceil(n*P/100), empty or undefined ranges make a for..in false, lexicographic string order, anchors of an `of` evaluated per item)",
         "floats, regular expressions (`matches`), modules, arrays/maps, .len(), int-as-bool casts, `bool == integer`, KB/MB suffixes, non-ASCII strings are not generated and not modelled",
@@ -28,12 +28,8 @@ RULE = ("rule sets of 1-25 rules in 1-3 namespaces with global/private flags and
         "`N of` with N = 0, more than 64 variable slots). Non-trivial: condition of >= 5 nodes; distinct by condition text.")
 
 FINGERPRINTS = {
-    1: "C02:const-fold-f64:add-sub-mul-beyond-2^53",
     2: "C02:of-fast-path:N<=0-always-true",
-    3: "C02:const-fold-f64+of-fast-path",
-    4: "C02:var-undef-flag-aliasing:slots>=64",
     5: "C02:lazy-pattern-search-skipped",
-    6: "C02:lazy-pattern-search-skipped+const-fold-f64",
     7: "C02:lazy-pattern-search-skipped+of-fast-path",
 }
 
